@@ -44,6 +44,7 @@ func c02Bounds(r *Run) {
 		}
 		return linConst(128), "128 (slab chunk cap)", true
 	}
+	e.checkWrap = true // the wrap obligations are reported by the R7 rule
 	res := bndReport(r, rule, e, 40)
 	trackedWritersOK(r, rule, e, res)
 }
